@@ -13,8 +13,8 @@ cp /tmp/mut/$f/$n.go $w/repo/$f.go
 cd $w/repo
 if ! go build ./... >/dev/null 2>&1; then echo "$f/$n nocompile $desc"; cd /; rm -rf $w; exit 0; fi
 if ! go vet . >/dev/null 2>&1; then echo "$f/$n novet $desc"; cd /; rm -rf $w; exit 0; fi
-out=$(CBGP_REPO=$w/repo CBGP_VERIF=$w/verif /verif/bin/cbgpcheck check all 2>&1)
+out=$(CBGP_REPO=$w/repo CBGP_VERIF=$w/verif ${BIN:-/verif/bin/cbgpcheck} check all 2>&1)
 fired=$(echo "$out" | grep -o 'VIOLATION property=C[0-9]*' | sed 's/VIOLATION property=//' | tr '\n' ',')
 if [ -n "$fired" ]; then echo "$f/$n checker[$fired] $desc"; cd /; rm -rf $w; exit 0; fi
-if timeout 300 go test -vet=off -count=1 ./... >/dev/null 2>&1; then echo "$f/$n SURVIVOR $desc"; else echo "$f/$n tests $desc"; fi
+if [ -n "$SKIPTESTS" ]; then echo "$f/$n UNKILLED $desc"; elif timeout 300 go test -vet=off -count=1 ./... >/dev/null 2>&1; then echo "$f/$n SURVIVOR $desc"; else echo "$f/$n tests $desc"; fi
 cd /; rm -rf $w
